@@ -4,7 +4,7 @@
    Composed with the method theorems this gives the end-to-end statements for the randomized and the symeig method. *)
 From Coq Require Import List Arith Lia Bool Reals Lra.
 From TLV Require Import Base.Ops Base.Tensor Base.RSum Model.Svd Proofs.SvdProofsAux Proofs.SvdProofs Proofs.SvdInterfaceProofs
-  Proofs.SvdRandProofs Proofs.SvdSymeigFull Proofs.SvdSymeigShapes Proofs.SvdDecisions Proofs.SvdEckartYoung Proofs.SvdRandE2E Proofs.SvdNNProofs Proofs.SvdMaskProofs.
+  Proofs.SvdRandProofs Proofs.SvdSymeigFull Proofs.SvdSymeigShapes Proofs.SvdDecisions Proofs.SvdEckartYoung Proofs.SvdRandE2E Proofs.SvdNNProofs Proofs.SvdMaskProofs Proofs.SvdSymeigBest.
 Import ListNotations.
 Local Open Scope R_scope.
 
@@ -234,4 +234,52 @@ Proof.
   { rewrite (interface_unfold _ meth fn) by exact Hm. rewrite <- E.
     destruct flip; [destruct (svd_flip Rops U0 V0 ub)|]; reflexivity. }
   split; [exact E1 | split; [exact P1 | split; [exact P2 | split; [exact RC | exact SU]]]].
+Qed.
+
+(* ---------- svd_interface(method = 'symeig_svd') returns a best approximation of rank <= n_eigenvecs (eigenvalues ascending) ---------- *)
+Theorem interface_symeig_best (eigh : list (list R) -> list R * list (list R)) (funs : fname -> nat -> list (list R) -> triple R)
+    epsd (M : list (list R)) d1 d2 n lam W flip ub iters sq eps U Sg V :
+  rect d1 d2 M -> (1 <= d1)%nat ->
+  let d := if (d2 <? d1)%nat then d1 else d2 in
+  let Gm := if (d2 <? d1)%nat then mmul Rops d1 M (transp Rops d2 M) else mmul Rops d2 (transp Rops d2 M) M in
+  (forall G0, length (fst (eigh G0)) = d /\ rect d d (snd (eigh G0))) ->
+  eigh Gm = (lam, W) -> eigh_contract2 d Gm lam W -> ascending lam ->
+  let k := n_kept d1 d2 n in
+  (k <= Nat.min d1 d2)%nat ->
+  (forall t, (t < k)%nat -> 0 <= epsd < nth (d - 1 - t) lam 0) ->
+  (forall cl X, funs FSymeig cl X = symeig_svd Rops eigh sqrt epsd X d1 d2 n) ->
+  svd_interface Rops funs MSymeig d2 M n flip ub None None iters sq eps = Ok (U, Sg, V) ->
+  rank_le d1 d2 k (recon U Sg V) /\
+  forall B, rank_le d1 d2 k B ->
+    frob2 d1 d2 (fun i j => mg M i j - recon U Sg V i j) <= frob2 d1 d2 (fun i j => mg M i j - B i j).
+Proof.
+  intros HM Hd1 d Gm HSH HE HC ASC k Hk Heps HF E.
+  destruct (interface_symeig_e2e eigh funs epsd M d1 d2 n lam W flip ub iters sq eps U Sg V HM Hd1 HSH HE HC Hk Heps HF E)
+    as (LS & _).
+  split; [exists (fun i t => mg U i t * nth t Sg 0), (mg V); intros i j _ _; unfold recon; now rewrite LS|].
+  pose proof (symeig_shapes eigh sqrt epsd M d1 d2 n HM) as SH. cbv zeta in SH. fold k in SH.
+  assert (P : Nat.min (Nat.min d1 d2) k = k) by lia.
+  destruct (symeig_svd Rops eigh sqrt epsd M d1 d2 n) as [[U0 S0] V0] eqn:ES.
+  assert (BEST : forall B, rank_le d1 d2 k B ->
+            frob2 d1 d2 (fun i j => mg M i j - recon U0 S0 V0 i j) <= frob2 d1 d2 (fun i j => mg M i j - B i j)).
+  { unfold d, Gm in *. destruct (Nat.ltb_spec d2 d1) as [Ht|Hw].
+    - pose proof (symeig_tall_best eigh epsd M d1 d2 n lam W Ht HM HE HC ASC) as T. cbv zeta in T. fold k in T. rewrite P in T.
+      rewrite ES in T. now apply T.
+    - pose proof (symeig_wide_best eigh epsd M d1 d2 n lam W Hw HM HE HC ASC) as T. cbv zeta in T. fold k in T. rewrite P in T.
+      rewrite ES in T. now apply T. }
+  assert (FACTS : length S0 = k /\ orthonormal_cols d1 k (mg U0) /\ orthonormal_rows k d2 (mg V0)).
+  { unfold d, Gm in *. destruct (Nat.ltb_spec d2 d1) as [Ht|Hw].
+    - pose proof (symeig_tall_svd eigh epsd M d1 d2 n lam W Ht HM HE HC) as T. cbv zeta in T. fold k in T. rewrite P in T.
+      rewrite ES in T. specialize (T Heps). destruct T as (A1 & _ & A3 & A4 & _). auto.
+    - pose proof (symeig_wide_svd eigh epsd M d1 d2 n lam W Hw HM HE HC) as T. cbv zeta in T. fold k in T. rewrite P in T.
+      rewrite ES in T. specialize (T Heps). destruct T as (A1 & _ & A3 & A4 & _). auto. }
+  destruct FACTS as (LS0 & OU & OV).
+  assert (HSH' : forall G0, let d0 := if (d2 <? d1)%nat then d1 else d2 in length (fst (eigh G0)) = d0 /\ rect d0 d0 (snd (eigh G0))) by exact HSH.
+  specialize (SH HSH'). destruct SH as (RU & _ & RV).
+  replace (Nat.min d1 k) with k in RU by lia. replace (Nat.min d2 k) with k in RV by lia.
+  destruct (interface_generic funs MSymeig FSymeig d1 d2 M n flip ub iters sq eps U0 S0 V0 U Sg V k k)
+    as (E1 & _ & _ & RC & _); try assumption; try reflexivity; try lia.
+  { rewrite HF. exact ES. }
+  intros B HB. rewrite (frob2_ext d1 d2 _ (fun i j => mg M i j - recon U0 S0 V0 i j)) by (intros i j _ _; now rewrite RC).
+  now apply BEST.
 Qed.
